@@ -412,10 +412,13 @@ func Run(t *testing.T, sc *Scenario) *Result {
 				if err := s.Silences.Set(context.Background(), sil); err != nil {
 					t.Fatalf("silence Set: %v", err)
 				}
+				// for the product model (pipe.go): which silence, which label set, the interval as stored
+				s.AddRec(sim.Rec{Kind: "silset", I: len(silIDs), FlushID: uint64(op.LS), Ts: sil.StartsAt.AsTime().UnixNano(), Exp: sil.EndsAt.AsTime().UnixNano()})
 				silIDs = append(silIDs, sil.Id)
 			case "expire":
 				if op.Sil < len(silIDs) {
-					_ = s.Silences.Expire(context.Background(), silIDs[op.Sil])
+					err := s.Silences.Expire(context.Background(), silIDs[op.Sil])
+					s.AddRec(sim.Rec{Kind: "silexp", I: op.Sil, Ok: err == nil})
 				}
 			case "nfgc":
 				if _, err := s.Nflog.GC(); err != nil {
